@@ -290,6 +290,11 @@ def call_builtin(ex, name, args, kwargs, node):
             return int(x)
         if is_z3(x) and z3.is_bool(x):
             return V.bool_to_int(x)
+        if isinstance(x, Fraction):
+            return int(x)             # truncation towards zero, as Python
+        if is_z3(x) and z3.is_real(x):
+            # int(x) of a real: truncation towards zero (floor for x >= 0, -floor(-x) otherwise)
+            return z3.If(x >= 0, z3.ToInt(x), -z3.ToInt(-x))
         raise OutOfSubset("int() of a real", node)
     if name in ("float", "np.float64"):
         (x,) = args
